@@ -69,7 +69,8 @@ func checkScript(s tsgen.Script) *vt.Fail {
 	root := tskit.Scratch("c01")
 	defer tskit.RemoveAll(root)
 	r := tskit.NewRecorder()
-	rr := tskit.RunInProcess(root, []tskit.ScriptFile{{Name: s.Name, Data: s.Bytes()}}, tskit.RunOpts{Params: paramsFor(s.P, r), Retain: true, Deadline: 3 * time.Minute})
+	ext, useDir := tskit.LayoutFor(s.Bytes())
+	rr := tskit.RunInProcess(root, []tskit.ScriptFile{{Name: s.Name, Data: s.Bytes(), Ext: ext}}, tskit.RunOpts{Params: paramsFor(s.P, r), Retain: true, Deadline: 3 * time.Minute, UseDir: useDir})
 	work := filepath.Join(rr.WorkRoot, "script-"+s.Name)
 	m := tsmodel.New(s.P, hostFor(work), s.Files)
 	want := m.Run(s.Text)
